@@ -93,6 +93,8 @@ class Game():
         if start_addr + len(data) > 0x4300:
             raise ValueError('Data too large: {} bytes starting at {} exceeds '
                              '0x4300'.format(len(data), start_addr))
+        # (data may be a section's own buffer, as returned by to_bytes().)
+        data = bytes(data)
         memmap = ((0x0, 0x2000, self.gfx._data),
                   (0x2000, 0x3000, self.map._data),
                   (0x3000, 0x3100, self.gff._data),
